@@ -262,8 +262,12 @@ func judge(class string, key []byte, o *fw.Obs) {
 	mnode, merr := mp.Master(seed)
 	var node *slip10.ExtendedKey
 	var err error
-	seedBuf := append([]byte(nil), seed...)
+	var sp fw.SpareSet
+	seedBuf := sp.Of("seed", seed, 64)
 	if !o.Try("NewMasterKey", func() { node, err = slip10.NewMasterKey(seedBuf, curve) }) {
+		return
+	}
+	if !sp.Check(o) {
 		return
 	}
 	if !bytes.Equal(seedBuf, seedCopy) {
